@@ -635,14 +635,14 @@ def run_amrgrid(c, tier, rng, rd, exe):
 # (d) search structures
 # ------------------------------------------------------------------------------------------------------------------
 def run_search(c, tier, rng, rd, exe):
-    ncase = 40 if tier == "quick" else 400
+    ncase = 40 if tier == "quick" else 160
     cases = []
     for i in range(ncase):
         S = rng.choice([4, 8, 16, 64])
         per = rng.choice([0, 1])
         frame = rng.choice(["dyadic", "dyadic", "generic"])
         mode = rng.random()
-        npos = rng.randint(2, 12) if mode < 0.3 else rng.randint(20, 120 if tier == "quick" else 400)
+        npos = rng.randint(2, 12) if mode < 0.3 else rng.randint(20, 120 if tier == "quick" else 250)
         npos = min(npos, S ** 3 // 2)
         pts = set()
         clustered = rng.random() < 0.35
@@ -672,7 +672,7 @@ def run_search(c, tier, rng, rd, exe):
         cases.append(dict(S=S, per=per, pos=pos, h2=h2, q=qs, frame=frame, npc=rng.choice([1, 2, 5, 10, 100])))
     # bucket-grid focus (PointLocations): open boxes, 2..5 buckets per axis, uniform / sheet-like / single-clump point sets, one
     # query in EVERY bucket (the shell-by-shell traversal starts from the bucket of the query) plus queries far from all points
-    for i in range(16 if tier == "quick" else 200):
+    for i in range(16 if tier == "quick" else 60):
         S = rng.choice([8, 16, 32])
         nb1 = rng.choice([2, 2, 2, 3, 3, 4] if tier == "quick" else [2, 2, 3, 3, 4, 5])
         npc = rng.choice([3, 6])
